@@ -2,7 +2,10 @@ module verif/harness
 
 go 1.18
 
-require github.com/alpacahq/marketstore/v4 v4.0.0
+require (
+	github.com/alpacahq/marketstore/v4 v4.0.0
+	github.com/vmihailenco/msgpack v4.0.4+incompatible
+)
 
 require (
 	github.com/alpacahq/rpc v1.3.0 // indirect
@@ -17,7 +20,6 @@ require (
 	github.com/prometheus/client_model v0.2.0 // indirect
 	github.com/prometheus/common v0.10.0 // indirect
 	github.com/prometheus/procfs v0.1.3 // indirect
-	github.com/vmihailenco/msgpack v4.0.4+incompatible // indirect
 	go.uber.org/atomic v1.6.0 // indirect
 	go.uber.org/multierr v1.5.0 // indirect
 	go.uber.org/zap v1.15.0 // indirect
